@@ -1,6 +1,7 @@
 \* next_cell AS PINNED (plain RK integers ignore the style): TLC must refute Refines
 SPECIFICATION Spec
 CONSTANTS
+  DeclaredFirst = TRUE
   RkIntHonoursStyle = FALSE
   FmtIds = {164}
   XfOnlyIds = {0, 14}
